@@ -19,7 +19,7 @@ pub enum Number {
 }
 
 impl Number {
-    pub fn negate(&self) -> Option<Self> {
+    pub fn negate(&self) -> Result<Option<Self>> {
         use Number::*;
 
         // toggle the sign instead of stacking minus signs, so `-(-5)` is `5` and not `--5`
@@ -31,12 +31,27 @@ impl Number {
             }
         }
 
-        Some(match self {
-            Integer(x) => Integer(flip_sign(x)),
-            BigInt(x) => BigInt(flip_sign(x)),
+        // the most negative int / bigint has no counterpart: the run-time operator fails on it, and so does the folded one
+        static OVERFLOW: &str =
+            "this operation is guaranteed to fail at runtime, so it cannot be allowed";
+
+        Ok(Some(match self {
+            Integer(x) => {
+                let Ok(negated) = flip_sign(x).parse::<i32>() else {
+                    bail!(OVERFLOW)
+                };
+                // written back in canonical form: `-0` is `0`
+                Integer(negated.to_string())
+            }
+            BigInt(x) => {
+                let Ok(negated) = flip_sign(x).parse::<i128>() else {
+                    bail!(OVERFLOW)
+                };
+                BigInt(negated.to_string())
+            }
             Float(x) => Float(flip_sign(x)),
-            Byte(_) => return None,
-        })
+            Byte(_) => return Ok(None),
+        }))
     }
 }
 
